@@ -293,8 +293,13 @@ func (s *Store) Close() error {
 	vhook.Point("close.stoppedFlusher")
 	cerr := s.Err()
 
-	err := s.index.Close()
+	// Write primary data before the index records that refer to it, in the
+	// same order as commit does.
+	_, err := s.index.Primary.Flush()
 	if err != nil {
+		cerr = err
+	}
+	if err = s.index.Close(); err != nil {
 		cerr = err
 	}
 	vhook.Point("close.afterIndexClose")
